@@ -2,7 +2,8 @@
     table, for EVERY hash function: invariant, simulation relation, preservation by
     insert / remove / get / has / length (with growth of the table). *)
 From Coq Require Import List Arith NArith ZArith Lia Bool.
-From UV Require Import Model.Map Proofs.MapBase Proofs.MapProbe.
+From Coq Require Import Sorting.Permutation.
+From UV Require Import Model.Map Proofs.MapBase Proofs.MapProbe Proofs.MapSort.
 Import ListNotations.
 
 Section MapRefine.
@@ -612,39 +613,6 @@ Proof.
       destruct (alist_miss' a k (R_miss _ a k HR Hno)) as [-> _]. reflexivity.
 Qed.
 
-(** ---- histories *)
-Notation stepm := (step key val keq nanlike true hash he ht).
-Notation sstepm := (sstep key val keq).
-Notation runm := (run key val keq nanlike true hash he ht).
-Notation srunm := (srun key val keq).
-
-(** operations covered by the proof (un-map: see [abs_of_R]) *)
-Definition proved_op (o : op key val) : bool :=
-  match o with OIns _ _ | ORem _ | OGet _ | OHas _ | OLen => true | _ => false end.
-
-Lemma step_sim : forall v a o, proved_op o = true -> R v a ->
-  R (fst (stepm v o)) (fst (sstepm a o)) /\ snd (stepm v o) = snd (sstepm a o).
-Proof.
-  intros v a o Ho HR. destruct o; try discriminate; simpl.
-  - destruct (v_insert_sim v a k x HR) as [v' [-> HR']]. simpl. auto.
-  - destruct (v_remove_sim v a k HR) as [v' [-> HR']]. simpl. auto.
-  - split; auto. rewrite (v_get_sim v a k HR). destruct (a_get key val keq a k); reflexivity.
-  - split; auto. rewrite (v_has_sim v a k HR). reflexivity.
-  - split; auto. destruct HR as [_ [-> _]]. rewrite map_length. reflexivity.
-Qed.
-
-Lemma run_sim : forall ops v a, forallb proved_op ops = true -> R v a ->
-  R (fst (runm v ops)) (fst (srunm a ops)) /\ snd (runm v ops) = snd (srunm a ops).
-Proof.
-  induction ops as [|o t IH]; intros v a Hall HR; simpl; auto.
-  simpl in Hall. apply andb_prop in Hall. destruct Hall as [Ho Ht].
-  destruct (step_sim v a o Ho HR) as [HR1 Hout].
-  destruct (stepm v o) as [v1 r1]. destruct (sstepm a o) as [a1 s1]. simpl in *.
-  destruct (IH v1 a1 Ht HR1) as [HR2 Houts].
-  destruct (runm v1 t) as [v2 rs]. destruct (srunm a1 t) as [a2 ss]. simpl in *.
-  split; auto. congruence.
-Qed.
-
 (** ---- the abstraction of a related state is the association list:
     row i carries the value of the i-th entry and the key bound to row i is its key *)
 Lemma In_binds : forall (cs : list (cell key)) (is : list nat) k i,
@@ -700,6 +668,153 @@ Proof.
   rewrite (map_seq_keys a (key_at key (fst v)) 0).
   - clear. induction a as [|[k x] t IH]; simpl; auto. rewrite IH. reflexivity.
   - intros i k x Hn. simpl. eapply key_at_R; eauto.
+Qed.
+
+(** ---- un-map: normalized() sorts the present keys by row index; under the invariant that is
+    the key order of the association list *)
+Lemma binds_length : forall (cs : list (cell key)) (is : list nat), length cs = length is ->
+  length (flat_map (fun ci : cell key * nat => match fst ci with Key k => [(k, snd ci)] | _ => [] end) (combine cs is)) = count_keys cs.
+Proof.
+  induction cs as [|c cs IH]; intros [|j is] H; simpl in *; try lia; auto.
+  rewrite app_length, IH by lia. destruct c; simpl; lia.
+Qed.
+
+Lemma unmap_keys_R : forall v a, R v a -> unmap_keys key (fst v) = map fst a.
+Proof.
+  intros v a HR. assert (HR' := HR). destruct HR' as [[Hp _] [_ [Hlen HB]]]. unfold unmap_keys.
+  destruct (Nat.eqb_spec (len (fst v)) 0) as [H0|H0].
+  - rewrite H0 in Hlen. destruct a; [reflexivity|discriminate].
+  - assert (Hbl : length (binds key (fst v)) = length a).
+    { unfold binds. rewrite binds_length by (apply (t_len _ Hp)). rewrite (t_count _ Hp). exact Hlen. }
+    apply firsts_by_index with (o := 0).
+    + apply sort_by_snd_seq; auto. intros i Hi.
+      destruct (nth_error a i) as [[k x]|] eqn:E; [|apply nth_error_None in E; lia].
+      apply in_map_iff. exists (k, i). split; auto. apply binds_at_In; auto. apply HB. eauto.
+    + intros k i Hin. rewrite Nat.sub_0_r.
+      apply (Permutation_in _ (sort_by_snd_perm _ _)) in Hin. apply binds_at_In in Hin; auto. apply HB. exact Hin.
+Qed.
+
+(** ---- present_indices (l.726-733), the key-side ingredient of reverse / rotate / take / drop:
+    under the invariant it lists the table positions of the keys in row order *)
+Lemma present_from_In : forall (l : list (cell key * nat)) p q i,
+  In (q, i) (present_from key p l) <-> exists j k, q = p + j /\ nth_error l j = Some (Key k, i).
+Proof.
+  induction l as [|[c i0] t IH]; intros p q i; simpl.
+  - split; [tauto|]. intros [[|j] [k [_ H]]]; discriminate.
+  - assert (Hrec : In (q, i) (present_from key (S p) t) <-> exists j k, q = p + S j /\ nth_error t j = Some (Key k, i)).
+    { rewrite IH. split; intros [j [k [H1 H2]]]; exists j, k; split; auto; lia. }
+    destruct c; simpl; rewrite ?Hrec.
+    + split.
+      * intros [j [k [H1 H2]]]. exists (S j), k. auto.
+      * intros [[|j] [k [H1 H2]]]; [discriminate|]. exists j, k. auto.
+    + split.
+      * intros [j [k [H1 H2]]]. exists (S j), k. auto.
+      * intros [[|j] [k [H1 H2]]]; [discriminate|]. exists j, k. auto.
+    + split.
+      * intros [H|[j [k0 [H1 H2]]]].
+        -- inversion H; subst. exists 0, k. split; auto.
+        -- exists (S j), k0. auto.
+      * intros [[|j] [k0 [H1 H2]]].
+        -- simpl in H2. inversion H2; subst. left. f_equal. lia.
+        -- right. exists j, k0. auto.
+Qed.
+
+Lemma present_from_length : forall (l : list (cell key * nat)) p,
+  length (present_from key p l) = count_keys (map fst l).
+Proof. induction l as [|[[| |k] i] t IH]; intros p; simpl; auto. Qed.
+
+Lemma map_fst_combine_cells : forall (l : list (cell key)) (l' : list nat), length l = length l' -> map fst (combine l l') = l.
+Proof. induction l; intros [|b l'] H; simpl in *; try lia; auto. f_equal. apply IHl. lia. Qed.
+
+Lemma nth_error_combine_cells : forall (l : list (cell key)) (l' : list nat) b c i,
+  nth_error (combine l l') b = Some (c, i) -> nth_error l b = Some c /\ nth_error l' b = Some i.
+Proof.
+  induction l; intros [|x l'] [|b] c i H; simpl in *; try discriminate.
+  - inversion H; subst. auto.
+  - apply IHl. assumption.
+Qed.
+
+Lemma nth_error_combine_cells' : forall (l : list (cell key)) (l' : list nat) b c i,
+  nth_error l b = Some c -> nth_error l' b = Some i -> nth_error (combine l l') b = Some (c, i).
+Proof.
+  induction l; intros [|x l'] [|b] c i H1 H2; simpl in *; try discriminate.
+  - inversion H1; inversion H2; subst. auto.
+  - apply IHl; assumption.
+Qed.
+
+Theorem present_indices_R : forall v a, R v a ->
+  length (present_indices key (fst v)) = length a /\
+  forall i k x, nth_error a i = Some (k, x) ->
+    exists p, nth_error (present_indices key (fst v)) i = Some p /\
+      cellat (fst v) p = Key k /\ nth p (idx (fst v)) 0 = i.
+Proof.
+  intros v a HR. assert (HR' := HR). destruct HR' as [[Hp _] [_ [Hlen HB]]]. unfold present_indices.
+  set (P := present_from key 0 (combine (cells (fst v)) (idx (fst v)))).
+  assert (HPin : forall q i, In (q, i) P -> exists k, cellat (fst v) q = Key k /\ nth q (idx (fst v)) 0 = i).
+  { intros q i H. apply present_from_In in H. destruct H as [j [k [Hq Hn]]]. simpl in Hq. subst q.
+    apply nth_error_combine_cells in Hn. destruct Hn as [H1 H2]. exists k. split.
+    - unfold MapProbe.cellat. apply nth_error_nth. exact H1.
+    - apply nth_error_nth. exact H2. }
+  assert (HPlen : length P = length a).
+  { unfold P. rewrite present_from_length, map_fst_combine_cells by (apply (t_len _ Hp)).
+    rewrite (t_count _ Hp). exact Hlen. }
+  assert (Hseq : map snd (sort_by_snd P) = seq 0 (length a)).
+  { apply sort_by_snd_seq; auto. intros i Hi.
+    destruct (nth_error a i) as [[k x]|] eqn:E; [|apply nth_error_None in E; lia].
+    destruct (proj2 (HB k i) (ex_intro _ x E)) as [p [Hc Hi']].
+    apply in_map_iff. exists (p, i). split; auto. apply present_from_In.
+    assert (Hlt : p < length (cells (fst v))) by (eapply cellat_key_lt; eauto).
+    exists p, k. split; auto. apply nth_error_combine_cells'.
+    - rewrite <- Hc. unfold MapProbe.cellat. apply nth_error_nth'. exact Hlt.
+    - rewrite <- Hi'. apply nth_error_nth'. rewrite (t_len _ Hp) in Hlt. exact Hlt. }
+  split.
+  - rewrite map_length. rewrite <- (map_length snd), Hseq, seq_length. reflexivity.
+  - intros i k x Hn.
+    assert (Hi : i < length a) by (apply nth_error_Some; congruence).
+    destruct (nth_error (sort_by_snd P) i) as [[p i']|] eqn:E.
+    2:{ apply nth_error_None in E. rewrite <- (map_length snd), Hseq, seq_length in E. lia. }
+    assert (Hi' : i' = i).
+    { assert (H := map_nth_error snd _ _ E). rewrite Hseq in H. simpl in H.
+      rewrite nth_error_nth' with (d := 0) in H by (rewrite seq_length; exact Hi).
+      rewrite seq_nth in H by exact Hi. inversion H. reflexivity. }
+    subst i'. exists p. split; [apply (map_nth_error fst _ _ E)|].
+    apply nth_error_In in E. apply (Permutation_in _ (sort_by_snd_perm _ _)) in E.
+    destruct (HPin p i E) as [k' [Hc Hx]]. split; auto.
+    destruct (proj1 (HB k' i) (ex_intro _ p (conj Hc Hx))) as [x' Hx']. congruence.
+Qed.
+
+(** ---- histories *)
+Notation stepm := (step key val keq nanlike true hash he ht).
+Notation sstepm := (sstep key val keq).
+Notation runm := (run key val keq nanlike true hash he ht).
+Notation srunm := (srun key val keq).
+
+(** operations covered by the proof *)
+Definition proved_op (o : op key val) : bool :=
+  match o with OIns _ _ | ORem _ | OGet _ | OHas _ | OLen | OUnmap => true | _ => false end.
+
+Lemma step_sim : forall v a o, proved_op o = true -> R v a ->
+  R (fst (stepm v o)) (fst (sstepm a o)) /\ snd (stepm v o) = snd (sstepm a o).
+Proof.
+  intros v a o Ho HR. destruct o; try discriminate; simpl.
+  - destruct (v_insert_sim v a k x HR) as [v' [-> HR']]. simpl. auto.
+  - destruct (v_remove_sim v a k HR) as [v' [-> HR']]. simpl. auto.
+  - split; auto. rewrite (v_get_sim v a k HR). destruct (a_get key val keq a k); reflexivity.
+  - split; auto. rewrite (v_has_sim v a k HR). reflexivity.
+  - split; auto. destruct HR as [_ [-> _]]. rewrite map_length. reflexivity.
+  - split; auto. rewrite (unmap_keys_R v a HR). destruct HR as [_ [-> _]]. reflexivity.
+Qed.
+
+Lemma run_sim : forall ops v a, forallb proved_op ops = true -> R v a ->
+  R (fst (runm v ops)) (fst (srunm a ops)) /\ snd (runm v ops) = snd (srunm a ops).
+Proof.
+  induction ops as [|o t IH]; intros v a Hall HR; simpl; auto.
+  simpl in Hall. apply andb_prop in Hall. destruct Hall as [Ho Ht].
+  destruct (step_sim v a o Ho HR) as [HR1 Hout].
+  destruct (stepm v o) as [v1 r1]. destruct (sstepm a o) as [a1 s1]. simpl in *.
+  destruct (IH v1 a1 Ht HR1) as [HR2 Houts].
+  destruct (runm v1 t) as [v2 rs]. destruct (srunm a1 t) as [a2 ss]. simpl in *.
+  split; auto. congruence.
 Qed.
 
 (** ---- the refinement theorem (relative to the growth lemma) *)
